@@ -32,14 +32,14 @@ EXPLANATION = ('INV per class x method x path; IDX slice-bound sign sites; SLICE
 TRUSTED = ['list semantics as modelled', 'hasattr on standard-library modules of the checker\'s interpreter (same Python as the repository\'s)']
 NOT_DECIDED = ['lock-step equivalence with a list model over all operation histories', 'Melody events staying in -2..127 under arbitrary transposition (values)']
 ASSUMPTIONS = ['callers of ChordProgression.from_quantized_sequence pass start_step <= end_step']
-FLOORS = {'INV': 25, 'IDX': 1, 'SLICE': 1, 'IFACE': 50, 'PAIRED': 4, 'API': 10, 'STEPS': 8}
+FLOORS = {'INV': 25, 'IDX': 1, 'SLICE': 1, 'IFACE': 50, 'PAIRED': 4, 'API': 10, 'STEPS': 8, 'RETAIN': 1}
 
 FAMILY = ['events_lib:SimpleEventSequence', 'melodies_lib:Melody', 'drums_lib:DrumTrack', 'chords_lib:ChordProgression']
 ESTABLISHERS = {'__init__', '_reset', '_from_event_list', 'from_event_list'}
 
 
 def E(t):
-  return ast.parse(t, mode='eval').body
+  return U.E(t)
 
 
 def run(ctx):
@@ -49,6 +49,7 @@ def run(ctx):
   leadsheet(ctx)
   api(ctx)
   steps_family(ctx)
+  retained_side(ctx)
 
 
 # ------------------------------------------------------------------ S1 / S2
@@ -219,7 +220,15 @@ def leadsheet(ctx):
   g = [s for m in (ci.methods.get('_from_melody_and_chords'), ci.methods['__init__']) if m is not None for s in m.node.body
        if isinstance(s, ast.If) and any(isinstance(x, ast.Raise) for x in s.body) and 'len(' in norm_text(s.test)]
   t = norm_text(g[0].test) if g else ''
-  ok = all(k in t for k in ('len(melody) != len(chords)', 'start_step', 'end_step', 'steps_per_bar', 'steps_per_quarter'))
+  fields = set()
+  for c in (g[0].test.values if g and isinstance(g[0].test, ast.BoolOp) and isinstance(g[0].test.op, ast.Or) else []):
+    sd = U.eq_sides(c, lambda a: True, ops=(ast.NotEq,))
+    if sd:
+      pair = sorted(norm_text(x) for x in sd)
+      for f in ('len(%s)', '%s.start_step', '%s.end_step', '%s.steps_per_bar', '%s.steps_per_quarter'):
+        if pair == sorted([f % 'melody', f % 'chords']):
+          fields.add(f)
+  ok = len(fields) == 5
   ctx.ob('PAIRED/lead-sheet', init, g[0] if g else init.node, ok, 'melody and chords must agree in length, range and resolution' if ok else 'the constructor does not reject mismatched melody/chords')
 
 
@@ -296,7 +305,7 @@ def steps_family(ctx):
   ok = any(nf.compare_equal(nf.compare_nf(a.test), nf.compare_nf(E('self.num_steps == steps'))) for a in asserts)
   ctx.ob('STEPS/set-length-post', sl, asserts[-1] if asserts else sl.node, ok, 'set_length asserts num_steps == steps' if ok else 'set_length no longer checks its postcondition')
   br = [(norm_text(s.test), [norm_text(x) for x in s.body]) for s in U.walk_stmts(sl.node) if isinstance(s, ast.If) and 'num_steps' in norm_text(s.test)]
-  ok = ('self.num_steps < steps', ['self._append_steps(steps - self.num_steps)']) in br and ('self.num_steps > steps', ['self._trim_steps(self.num_steps - steps)']) in br
+  ok = ('self.num_steps < steps', ['self._append_steps(steps - self.num_steps)']) in br and ('steps < self.num_steps', ['self._trim_steps(self.num_steps - steps)']) in br
   ctx.ob('STEPS/set-length-branches', sl, sl.node, ok, 'too short -> append the difference, too long -> trim the difference' if ok else 'set_length does not append/trim exactly the difference')
   pr = ctx.cls('pianoroll_lib:PianorollSequence')
   sl = pr.methods['set_length']
@@ -308,7 +317,76 @@ def steps_family(ctx):
   ctx.ob('STEPS/pianoroll-range', pr, pr.node, ok, 'one frame per step: num_steps = len, end_step = start_step + num_steps' if ok else 'PianorollSequence step range is not derived from its length')
 
 
+# ------------------------------------------------------------------ retained side
+def retained_side(ctx):
+  """"set_length keeps the events of the retained side": an override of set_length
+  that stores into the event list after delegating may only touch the first padded
+  slot on the right, i.e. index old_len (= len(self) taken before delegating) under
+  old_len < steps and not from_left.  Any other element store overwrites a retained event."""
+  base = ctx.cls('events_lib:SimpleEventSequence')
+  seen = 0
+  for ci in [base] + ctx.P.subclasses(base):
+    m = ci.methods.get('set_length')
+    if m is None or ci is base:
+      continue
+    ps = m.params()
+    ctx.require(len(ps) >= 3, '%s.set_length: unexpected signature %s' % (ci.qualname, ps))
+    me, steps_p, left_p = ps[0], ps[1], ps[2]
+    body = m.node.body
+    sup = [i for i, st in enumerate(body) if any(isinstance(c, ast.Call) and isinstance(c.func, ast.Attribute) and c.func.attr == 'set_length' and
+                                                   isinstance(c.func.value, ast.Call) and dotted(c.func.value.func) == 'super' for c in ast.walk(st))]
+    ctx.require(len(sup) == 1, '%s.set_length does not delegate to super().set_length exactly once at top level' % ci.qualname)
+    old = [st.targets[0].id for st in body[:sup[0]] if isinstance(st, ast.Assign) and isinstance(st.targets[0], ast.Name) and norm_text(st.value) == 'len(%s)' % me]
+    stores = []
+    for st in U.walk_stmts(m.node):
+      for tgt, _v, _o in U.store_targets(st):
+        if isinstance(tgt, ast.Subscript) and norm_text(tgt.value) == me + '._events':
+          stores.append((st, tgt))
+    for st, tgt in stores:
+      seen += 1
+      tests = U.enclosing_tests(m.node, st)
+      idx_ok = len(old) == 1 and norm_text(tgt.slice) == old[0]
+      grow = any(pol and has_cmp(t, '%s < %s' % (old[0] if old else '?', steps_p)) for (t, pol) in _flatten(tests))
+      right = any((not pol and norm_text(t) == left_p) or (pol and norm_text(t) == 'not ' + left_p) for (t, pol) in _flatten(tests))
+      ok = idx_ok and grow and right
+      ctx.ob('RETAIN/override-store', m, st, ok,
+             'the only element store is the first padded slot on the right (index %s under %s < %s and not %s)' % (old[0], old[0], steps_p, left_p) if ok else
+             '%s.set_length stores into %s outside the first right-padded slot (index is old length: %s, guarded by growth: %s, guarded by not %s: %s): an event of the retained side can be overwritten'
+             % (ci.qualname, norm_text(tgt), idx_ok, grow, left_p, right),
+             construct='%s.set_length: store %s only in the padded slot' % (ci.qualname, norm_text(tgt)))
+  ctx.require(seen >= 1, 'no set_length override with an element store found (Melody.set_length is expected)')
+
+
+def _flatten(tests):
+  """(test, polarity) pairs with positive conjunctions split into their conjuncts."""
+  out = []
+  for (t, pol) in tests:
+    if pol and isinstance(t, ast.BoolOp) and isinstance(t.op, ast.And):
+      out.extend((v, True) for v in t.values)
+    elif not pol and isinstance(t, ast.BoolOp) and isinstance(t.op, ast.Or):
+      out.extend((v, False) for v in t.values)
+    else:
+      out.append((t, pol))
+  res = []
+  for (t, pol) in out:
+    if isinstance(t, ast.UnaryOp) and isinstance(t.op, ast.Not):
+      res.append((t.operand, not pol))
+    res.append((t, pol))
+  return res
+
+
+def has_cmp(test, text):
+  try:
+    return nf.compare_equal(nf.compare_nf(test), nf.compare_nf(E(text)))
+  except nf.NFError:
+    return False
+
+
 MUTANTS = [
+    Mutant('seed C17_a: the sustained-note fix-up also runs when padding on the left', ML, '    if steps > old_len and not from_left:', '    if steps > old_len:', rule='RETAIN/override-store'),
+    Mutant('the fix-up overwrites the last retained event', ML, '          self._events[old_len] = MELODY_NOTE_OFF', '          self._events[old_len - 1] = MELODY_NOTE_OFF', rule='RETAIN/override-store'),
+    Mutant('guard written as nested ifs (harmless)', ML, '    if steps > old_len and not from_left:\n      # When extending the melody on the right, we end any sustained notes.\n      for i in reversed(range(old_len)):\n        if self._events[i] == MELODY_NOTE_OFF:\n          break\n        elif self._events[i] != MELODY_NO_EVENT:\n          self._events[old_len] = MELODY_NOTE_OFF\n          break',
+           '    if not from_left:\n      if old_len < steps:\n        for i in reversed(range(old_len)):\n          if self._events[i] == MELODY_NOTE_OFF:\n            break\n          elif self._events[i] != MELODY_NO_EVENT:\n            self._events[old_len] = MELODY_NOTE_OFF\n            break', expect='silent'),
     Mutant('append without advancing end_step', EL, "    self._events.append(event)\n    self._end_step += 1", "    self._events.append(event)", rule='INV/'),
     Mutant('increase_resolution scales only end_step', EL, "    self._start_step *= k\n    self._end_step *= k", "    self._end_step *= k", rule='INV/'),
     Mutant('increase_resolution repeats k+1 times', EL, "      fill = lambda event: [event] * k", "      fill = lambda event: [event] * (k + 1)", rule='INV/'),
@@ -334,6 +412,6 @@ MUTANTS = [
     Mutant('from_event_list computes the end from the argument', EL, "    self._end_step = start_step + len(self)\n", "    self._end_step = start_step + len(self._events)\n", expect='silent'),
 ]
 
-RENAME_FUNCS = [(EL, 'SimpleEventSequence.set_length'), (EL, 'SimpleEventSequence.increase_resolution'), (EL, 'SimpleEventSequence.__getitem__'),
+RENAME_FUNCS = [(ML, 'Melody.set_length'), (EL, 'SimpleEventSequence.set_length'), (EL, 'SimpleEventSequence.increase_resolution'), (EL, 'SimpleEventSequence.__getitem__'),
                 (ML, 'Melody.from_quantized_sequence'), (ML, 'Melody._add_note'), (CL, 'ChordProgression.from_quantized_sequence'), (DL, 'DrumTrack.from_quantized_sequence'),
                 (PL, 'BasePerformance._append_steps'), (PL, 'BasePerformance.num_steps'), (LS, 'LeadSheet.append')]
